@@ -9,6 +9,7 @@ import math
 import operator
 import random
 from concurrent.futures import Future
+from concurrent.futures import Future
 from decimal import Decimal
 from fractions import Fraction
 
@@ -16,7 +17,7 @@ from props.common import run, fingerprint, sched_kwargs, schedule_modes, hit, co
 from world.sim import SimFuture, EXC, outcome
 
 ID = "C17"
-LEAN_MODULES = ["MoreExec.Props.C17"]
+LEAN_MODULES = ["MoreExec.Props.C17", "MoreExec.Props.C17NoCancel"]
 THEOREMS = [
     "MoreExec.Proxy.C17_transparent",
     "MoreExec.Proxy.C17_direct_dunder_agrees_iff",
@@ -25,8 +26,14 @@ THEOREMS = [
     "MoreExec.Proxy.C17_table_all_transparent",
     "MoreExec.Proxy.C17_nonblocking",
     "MoreExec.Proxy.C17_nocancel",
+    "MoreExec.NoCancel.C17_nocancel_source_facts",
+    "MoreExec.NoCancel.C17_nocancel_returns_false",
+    "MoreExec.NoCancel.C17_nocancel_shields",
+    "MoreExec.NoCancel.C17_nocancel_mirrors",
+    "MoreExec.NoCancel.C17_nocancel_resolve_mirrors",
+    "MoreExec.NoCancel.C17_nocancel_code_mirrors",
 ]
-KERNELS = ["K8"]
+KERNELS = ["K8", "K15"]
 BUDGET = {"quick": 120, "thorough": 900}
 ASSUMPTIONS = [
     "Python's numeric/container semantics are a parameter of the theorems; the differential samples them over the builtin types",
@@ -182,31 +189,61 @@ def body_for(desc, ctx):
             if got is not e:
                 ctx.hits.append(hit("C17/failed-future-not-raised", "%s(proxy of failed future) raised %r instead of the future's exception" % (desc["op"], got)))
             ctx.done_flag = True
-        else:  # nocancel
+        else:  # nocancel: one run of Model/NoCancel.lean's alphabet (wcancel* / finish o / callback), any order the schedule picks
+            rr = random.Random(desc["seed"])
+            fin = rr.choice(["ok", "ok", "err", "cancelled", "never"])      # how the INPUT ends (cancelled = by a holder of the input)
+            pre = fin != "never" and rr.random() < 0.3                     # already finished when wrapped
+            ncanc = rr.choice([0, 1, 2, 2, 3])
+            e = EXC["E1"]("nc%d" % desc["idx"])
             src = SimFuture()
+
+            def finish():
+                if fin == "ok":
+                    src.set_running_or_notify_cancel()
+                    src.set_result(v)
+                elif fin == "err":
+                    src.set_running_or_notify_cancel()
+                    src.set_exception(e)
+                elif fin == "cancelled":
+                    Future.cancel(src)     # the holder of the input cancels it: stdlib call, not logged as a request from above
+                    src.set_running_or_notify_cancel()
+            if pre:
+                finish()
             nc = f_nocancel(src)
             rs = []
+            seen = []
+            nc.add_done_callback(lambda f: seen.append(outcome(f)))
 
             def canceller():
                 s.yield_point("api")
                 rs.append(nc.cancel())
-            cts = [s.spawn(canceller, name="c%d" % k) for k in range(2)]
+            cts = [s.spawn(canceller, name="c%d" % k) for k in range(ncanc)]
 
             def resolver():
                 s.yield_point("api")
-                src.set_running_or_notify_cancel()
-                src.set_result(v)
-            cts.append(s.spawn(resolver, name="resolver"))
+                finish()
+            if not pre and fin != "never":
+                cts.append(s.spawn(resolver, name="resolver"))
             for ct in cts:
                 if ct.state != "done":
                     s.block(lambda ct=ct: ct.state == "done", None, ("cjoin", ct.tid))
-            if rs != [False, False]:
+            rs.append(nc.cancel())                                          # a late cancel, after everything
+            ctx.stats = {"nc_fin_" + fin: 1, "nc_pre": int(pre), "nc_cancels": ncanc + 1}
+            if any(r is not False for r in rs):
                 ctx.hits.append(hit("C17/nocancel-returned-true", "f_nocancel(f).cancel() returned %r" % (rs,)))
-            if src.cancelled():
-                ctx.hits.append(hit("C17/nocancel-cancelled-input", "the wrapped future was cancelled"))
-            o = outcome(nc)
-            if not (o[0] == "ok" and o[1] is v):
-                ctx.hits.append(hit("C17/nocancel-not-mirroring", "wrapper outcome %r, input resolved with %r" % (o, v)))
+            if src.cancelled() != (fin == "cancelled"):
+                ctx.hits.append(hit("C17/nocancel-cancelled-input", "the wrapped future's cancelled() is %r, its own history says %r" % (src.cancelled(), fin)))
+            if fin == "never":
+                if nc.done() or src.done():
+                    ctx.hits.append(hit("C17/nocancel-not-mirroring", "input never finished but wrapper done=%r input done=%r" % (nc.done(), src.done())))
+            else:
+                o = outcome(nc)
+                want = {"ok": ("ok", v), "err": ("err", e), "cancelled": ("cancelled",)}[fin]
+                same = o[0] == want[0] and (len(want) == 1 or o[1] is want[1])
+                if not same:
+                    ctx.hits.append(hit("C17/nocancel-not-mirroring", "wrapper outcome %r, input ended with %r" % (o, want)))
+                if len(seen) != 1:
+                    ctx.hits.append(hit("C17/nocancel-callbacks", "done-callback of the wrapper ran %d times" % len(seen)))
             ctx.done_flag = True
     return body
 
@@ -216,12 +253,16 @@ def run_one(desc):
     ctx = Ctx()
     s, w = run(body_for(desc, ctx), **sched_kwargs(desc))
     hits = list(getattr(ctx, "hits", []))
+    if s.end_reason == "done" and not getattr(ctx, "done_flag", False):
+        raise RuntimeError("C17 scenario body did not reach its end (harness error): %r %r" % (desc, s.errors))
     if s.end_reason != "done":
         hits.append(hit("C17/stuck:%s:%s" % (desc["mode_kind"], s.end_reason), "scenario ended with %s; parked %r" % (s.end_reason, s.parked())))
     for e in s.log:
         if e[1] == "dcancel>" and desc["mode_kind"] == "nocancel":
             hits.append(hit("C17/nocancel-pierced", "cancel() reached the wrapped future"))
-    r = {"hits": hits, "blocks": [], "verdicts": [], "stats": {"kind_" + desc["mode_kind"]: 1},
+    st = {"kind_" + desc["mode_kind"]: 1}
+    st.update(getattr(ctx, "stats", {}))
+    r = {"hits": hits, "blocks": [], "verdicts": [], "stats": st,
          "schedule": list(s.chooser.record), "fingerprint": fingerprint(desc, s)}
     if desc.get("idx") == 0:
         r["sample"] = {"desc": desc}
